@@ -2,19 +2,32 @@
 
 Monitor: differential observation under perturbation.  Every program P of a corpus is checked by the real pyanalyze
 many times and the *renderings* (list of (code, line, col, full message incl. detail and context; module-name
-tokens normalised)) are compared for equality across
+tokens normalised; the attribute checker's late diagnostics included)) are compared for equality across
 
-  repeat     : consecutive runs in ONE process with the same Checker (junk allocations between the runs),
+  repeat     : consecutive runs in ONE process on ONE Checker that the first WARM_RUNS runs have warmed (junk
+               allocations between the runs),
   layout     : fresh interpreters with the SAME PYTHONHASHSEED but another heap layout (ASLR, junk allocations before
                import / before parse, PYTHONMALLOC=malloc, gc off),
-  hashseed   : fresh interpreters with different PYTHONHASHSEED,
-  history    : the same process, a Checker that has already checked unrelated programs vs. a fresh Checker,
+  hashseed   : fresh interpreters with different PYTHONHASHSEED (confirmed by a second interpreter with that seed),
+  history    : a Checker that has already checked other programs vs. a fresh one: in this process (candidates) and,
+               because pyanalyze keeps state in shared Value objects that outlive a Checker, confirmed in fresh
+               interpreters: [P] vs [H..., P]; every shard also runs its list in reverse order after a warm-up program,
   file-order : the CLI on a directory vs. the same files one at a time / with --parallel.
 
-Mechanism key (DESIGN Appendix A): axis | code of the first differing diagnostic | what differs
-[| message class — only for listed-names-order/content, where one code has several message builders].
-An observation made on a coarse axis is first re-tried on the finer ones (repeat < layout < hashseed), so that a set
-ordered by id() is reported once, as `repeat`, whatever environment pair happened to expose it.
+Mechanism key (DESIGN Appendix A): axis | code of the differing diagnostic | what differs [| message class].
+ * what differs: order-of-diagnostics (equal multisets) / union-member-order (equal after sorting the members of every
+   `A | B` and Literal[...] list, or the per-member detail lines) / listed-names-order (equal after sorting comma-separated
+   names) / content.
+ * the code is `*` where the message is only the carrier of a Value's text (union order, protocol member lists, reprs):
+   the defect is in how the value is built or printed, and every code whose message embeds it shows it.
+ * the message class (first differing line, names and numbers abstracted) is added for listed-names-order and content,
+   because one code has several message builders.  unused_variable and unused_assignment come out of one loop and share
+   one key.
+ * every differing diagnostic of a pair is classified (not only the first), so one unstable message cannot hide another.
+An observation made on a coarse axis is first re-tried on the finer ones (repeat < layout < hashseed < history <
+file-order), so that e.g. a set ordered by id() is reported once, as `repeat`, whichever environment pair exposed it.
+Excused (counted): addresses inside the repr of a runtime object of the checked program (a fresh object per import);
+programs whose own module-level values change from import to import (clock etc.) are dropped from the corpus.
 """
 from __future__ import annotations
 
@@ -34,29 +47,32 @@ ID = "C10"
 LEVEL = "exploration"
 TECHNIQUE = "differential observation under perturbation (hash seed, heap layout, repetition, checker history, CLI file grouping)"
 RULE = (
-    "case = one program P checked under every environment of its shard: R in-process repeats on one fresh Checker, "
-    "prefix/suffix/related histories on shared Checkers, one fresh interpreter per (PYTHONHASHSEED) and per (heap layout) "
-    "environment, and for a sample the CLI on a directory vs single files vs --parallel. Corpus: 18 targeted families "
-    "(or-chains of 3-5 narrowing conditions, assignments in try/with bodies, 3-6 unused variables, 2-5 unexpected keywords, "
-    "protocols with 3-6 members, %(k)s/{k} templates with missing keys, unions of >=10 literals, TypedDict, overloads, "
-    "constrained TypeVars, match or-patterns, set/dict displays, ...), vp.illtyped programs, vp.proggen modules with "
-    "reveal_type appended, and the bodies of @assert_passes/@assert_fails tests of /repo that import standalone. "
-    "Non-trivial = P has >= 2 diagnostics or a message listing >= 2 items; distinct by source digest; the evidence lists "
-    "how many environments each program was observed under and how many distinct renderings were seen."
+    "case = one program P checked under every environment of its shard: R in-process runs on one fresh Checker (3 warm-up + "
+    "5-6 compared), self/prefix/warm-up+reversed/related histories on shared Checkers, one fresh interpreter per environment "
+    "(base; 3-6 heap layouts with the base seed; 5-14 other PYTHONHASHSEEDs, 2-4 of them twice with another layout; the list in "
+    "reverse order after a warm-up program), and for a sample the CLI on a directory vs single file vs --parallel. Corpus: 24 "
+    "targeted families (or-chains of 3-5 narrowing conditions, assignments in try/with bodies, 3-6 unused variables, 2-5 "
+    "unexpected keywords, protocols with 3-6 members, %(k)s/{k} templates with missing/unused keys, unions of >=10 literals, "
+    "TypedDict, overloads, constrained TypeVars, match or-patterns, set/dict displays, bad context managers, bad calls of "
+    "builtins (typeshed signatures in the message), narrowing-predicate values, ...), vp.illtyped programs, vp.proggen modules "
+    "with reveal_type appended, and the bodies of @assert_passes/@assert_fails tests of /repo that import standalone. "
+    "Non-trivial = P has >= 2 diagnostics or a message listing >= 2 items; distinct by source digest; the evidence lists how "
+    "many environments each program was observed under and how many distinct renderings were seen."
 )
 ASSUMPTIONS = [
     "equality of renderings is the oracle; module-name tokens (random per make_module) are normalised by harness.normalise_text",
     "a child interpreter started with PYTHONHASHSEED=s / PYTHONMALLOC / junk allocations realises that environment; ASLR is on, "
     "so two children with identical settings still differ in heap layout (counted under `layout`)",
-    "programs whose own top-level code fails to import standalone are dropped from the corpus (counted)",
+    "programs whose own top-level code fails to import standalone, or computes different module-level values on two imports, "
+    "are dropped from the corpus (counted); an address inside the repr of a runtime object of the checked program is excused",
     "axis attribution is empirical: an observation is attributed to the finest axis on which it could be reproduced within "
-    "the stated number of attempts",
+    "30 warm in-process repeats / the shard's interpreters; probabilistic defects can be missed by a single run",
 ]
 FLOORS = {
-    "quick": {"distinct_nontrivial": 150, "programs": 200, "environments_compared": 2500, "child_environments": 60,
-              "inproc_repeat_runs": 1000, "histories": 300, "cli_invocations": 6, "unstable_programs": 1},
-    "thorough": {"distinct_nontrivial": 800, "programs": 1000, "environments_compared": 25000, "child_environments": 200,
-                 "inproc_repeat_runs": 5000, "histories": 2000, "cli_invocations": 40},
+    "quick": {"distinct_nontrivial": 180, "programs": 200, "environments_compared": 3400, "child_environments": 120,
+              "inproc_repeat_runs": 1600, "histories": 1000, "cli_invocations": 6},
+    "thorough": {"distinct_nontrivial": 900, "programs": 1000, "environments_compared": 25000, "child_environments": 220,
+                 "inproc_repeat_runs": 9000, "histories": 6000, "cli_invocations": 40},
 }
 NSHARDS = 16
 WATCHDOG_S = {"quick": 1800, "thorough": 10800}
@@ -172,6 +188,7 @@ def canon_union(msg: str) -> str:
     """Sort the members of every `A | B | C` and `Literal[...]`/`Union[...]` list (line by line)."""
     lines = []
     for line in msg.split("\n"):
+        line = line.replace(" containing [", "_containing_[")
         try:
             lines.append(_canon_items(_parse(line)))
         except (ValueError, AttributeError):
@@ -233,7 +250,10 @@ def _crash_class(d) -> str:
     return (m.group(1) if m else "?")[:60]
 
 
-def classify_all(ra, rb) -> list:
+EXCUSED = "excused"
+
+
+def classify_all(ra, rb, keep_excused: bool = False) -> list:
     """[] if equal, else one (code, kind, message-class-or-'', da, db) per differing diagnostic (distinct suffixes only;
     in emission order of `ra`)."""
     A, B = [tuple(d) for d in ra], [tuple(d) for d in rb]
@@ -266,6 +286,8 @@ def classify_all(ra, rb) -> list:
             if suffix_of(c) not in seen:
                 seen.add(suffix_of(c))
                 out.append(c)
+    if not keep_excused:
+        out = [c for c in out if c[1] != EXCUSED]
     return out
 
 
@@ -282,8 +304,11 @@ def _classify_pair(da, db):
     if _ADDR_RE.sub("0xADDR", ma) == _ADDR_RE.sub("0xADDR", mb):
         m = _ADDR_RE.search(ma)
         internal = text_inside_internal_repr(ma, m.start())
-        cls = "object address in message text, " + ("repr of a pyanalyze-internal object" if internal else "repr of an object of the checked program")
-        return "*", "content", cls, da, db
+        if not internal:
+            # repr() of a runtime object of the checked program (a fresh object on every import): the message shows a
+            # value that the program itself computes differently on each run - not the checker's doing
+            return "*", EXCUSED, "address in the repr of an object of the checked program", da, db
+        return "*", "content", "object address in message text, repr of a pyanalyze-internal object", da, db
     ma, mb = _ADDR_RE.sub("0xADDR", ma), _ADDR_RE.sub("0xADDR", mb)
     if len(_PROTO_RE.findall(ma)) != len(_PROTO_RE.findall(mb)) and _PROTO_RE.sub("", ma) == _PROTO_RE.sub("", mb):
         # TypedValue.__str__ prints the member list only when the Value object's lazily-filled type object is there
@@ -566,6 +591,35 @@ def build_corpus(ctx) -> list:
     return progs
 
 
+def module_state(src: str) -> dict:
+    """repr of every module-level value after importing `src` (addresses normalised; one level into classes)."""
+    mod = harness.make_module(src)
+    try:
+        out = {}
+        for name, val in list(mod.__dict__.items()):
+            if name.startswith("__"):
+                continue
+            if isinstance(val, type) and getattr(val, "__module__", None) == mod.__name__:
+                for k, v in list(vars(val).items()):
+                    if not k.startswith("__"):
+                        out[f"{name}.{k}"] = _ADDR_RE.sub("0xADDR", harness.normalise_text(repr(v)))[:300]
+            else:
+                out[name] = _ADDR_RE.sub("0xADDR", harness.normalise_text(repr(val)))[:300]
+        return out
+    finally:
+        harness.forget_module(mod)
+
+
+def self_deterministic(src: str) -> bool:
+    """Does the program compute the same module-level values on two imports (no clock, pid, random numbers ...)?"""
+    try:
+        return module_state(src) == module_state(src)
+    except BaseException as e:  # noqa: BLE001
+        if isinstance(e, (KeyboardInterrupt, SystemExit, MemoryError)):
+            raise
+        return True  # import failures are handled (and counted) by the caller
+
+
 def lists_items(r) -> bool:
     return any(re.search(r"'\w+', '\w+'|\w+ \| \w+|Literal\[[^\]]*, ", str(d[3]).split("\nIn ")[0]) for d in r)
 
@@ -594,6 +648,10 @@ def shard(ctx) -> None:
     progs = []
     # (c) repeated runs on one fresh Checker; also validates that the program imports standalone
     for p in build_corpus(ctx):
+        if p.source == "test-snippet" and not self_deterministic(p.src):
+            # e.g. datetime.now() at module level: the program's own values change from import to import
+            ctx.count("programs_rejected_own_nondeterminism")
+            continue
         try:
             p.rep = inproc_repeats(p.src, p.mode, R, rng)
         except BaseException as e:  # noqa: BLE001  the program's own import failed
@@ -608,6 +666,8 @@ def shard(ctx) -> None:
         p.ndiags = len(p.rep[0])
         for c in repeat_diffs(p.rep):
             p.found.setdefault(suffix_of(c), ("repeat", c, {"attempts": R}))
+        if any(c[1] == EXCUSED for r in p.rep[WARM_RUNS + 1:] for c in classify_all(p.rep[WARM_RUNS], r, keep_excused=True)):
+            ctx.count("programs_with_excused_repr_of_own_runtime_object")
         # first run on the fresh Checker vs later runs: the history is P itself
         for k in range(1, WARM_RUNS):
             p.hist.append((f"self-{k}", [pi] * k, p.rep[k]))
